@@ -332,7 +332,7 @@ func visitInstr(fr *frame, instr ssa.Instruction) continuation {
 	case *ssa.MakeMap:
 		var reserve int64
 		if instr.Reserve != nil {
-			reserve = asInt64(fr.get(instr.Reserve))
+			reserve = fr.i.mapHint(fr.get(instr.Reserve), fr.site(instr))
 		}
 		if !fitsInt(reserve, fr.i.sizes) {
 			panic(fmt.Sprintf("ssa.MakeMap.Reserve value %d does not fit in int", reserve))
